@@ -200,6 +200,7 @@ class Sim:
         self.clock_reads = 0
         self.pending_hooks = {}
         self.hook_owner = {}  # hook id -> endpoint label
+        self.stalled_hooks = []
         self.hook_counts = collections.Counter()
         self.next_hook_id = 0
         self.write_counts = collections.Counter()
@@ -285,6 +286,7 @@ class Sim:
             self.hook_owner[hid] = label
             self.rec("hook_park", label, hname, hid)
             self.fault("hook_suspended")
+            self.fault("hook_suspended_in_" + hname)
             try:
                 await fut
             finally:
@@ -294,6 +296,28 @@ class Sim:
                 # reach probe: this task's processing resumes while another task's disconnect() is suspended
                 self.probe("hook_resumed_during_disconnect")
                 self.probe(f"hook_resumed_during_disconnect:{hname}:{ep.connection_state.name}")
+        stall_p = self.cfg.get("p_hook_stall", 0.0)
+        if stall_p and self.hook_p(label, hname) > 0 and self.decide(f"hookstall:{label}:{hname}:{n}", stall_p):
+            # fault injection: a stalled application callback - it comes back by itself after a stretch of
+            # simulated time in which the endpoint's other tasks (watchdog, senders, a disconnect) go on
+            import asyncio
+
+            d = self.cfg.get("hook_stall_s", 3.0)
+            self.rec("hook_stall", label, hname, d)
+            self.fault("hook_stalled")
+            self.fault("hook_stalled_in_" + hname)
+            fut = self.loop.create_future()
+            h = self.loop.call_later(d, lambda f=fut: f.done() or f.set_result(None))
+            self.stalled_hooks.append(fut)  # (begin_settle lets them return: faults stop there)
+            try:
+                await fut
+            finally:
+                h.cancel()
+                if fut in self.stalled_hooks:
+                    self.stalled_hooks.remove(fut)
+            ep = getattr(self, "eps", None) and self.eps.get(label)
+            if ep is not None and ep.connection_state.value <= 3:
+                self.probe("stalled_hook_returned_after_the_connection_was_gone")
         if self.decide(f"hookraise:{label}:{hname}:{n}", self.hook_raise_p(label, hname)):
             # fault injection: the application's own handler fails (the library logs it and carries on)
             self.rec("hook_raise", label, hname)
@@ -703,6 +727,9 @@ class Sim:
         self.rec("settle_begin")
         for conn in self.net.conns:
             conn.partitioned = False
+        for fut in list(self.stalled_hooks):
+            if not fut.done():
+                fut.set_result(None)
 
     def settle_actions(self):
         """Benign actions, canonical order: everything in flight moves FIFO."""
